@@ -28,6 +28,9 @@ MC_Fns == {}
 MC_SOps == {}
 MC_VOps == {"+", "-", "*", "/", "**"}
 MC_Senses == {}
+MC_Stages == <<>>
+MC_FinalEn == {}
 MC_Want == {}
+MC_NoPR(o) == <<>>
 ASSUME PrintT(<<"BASE", BaseCalls, BaseHeap, AllNames, SliceTab>>)
 =============================================================================
